@@ -407,6 +407,7 @@ pub struct Hist {
     pub rejected: u64,
     pub nonce: u32,
     pub log: Vec<String>,
+    pub workers: usize,
 }
 
 #[derive(Debug, Clone, Copy)]
@@ -431,7 +432,8 @@ impl Hist {
     pub fn new(rng: &mut Rng, shape: Shape) -> Self {
         let mut rt = WorldlineRuntime::new();
         let mut prov = ProvenanceService::new();
-        let engine = make_engine(if rng.chance(1, 4) { 3 } else { 1 });
+        let workers = if rng.chance(1, 4) { 3 } else { 1 };
+        let engine = make_engine(workers);
         let mut wls = Vec::new();
         let mut live = BTreeMap::new();
         for w in 0..shape.worldlines {
@@ -509,6 +511,27 @@ impl Hist {
             rejected: 0,
             nonce: 0,
             log: Vec::new(),
+            workers,
+        }
+    }
+
+    /// Independent copy of this world (runtime, provenance, live log) with a
+    /// fresh engine carrying the same rules; used to continue forks without
+    /// disturbing the original history.
+    pub fn fork_world(&self) -> Self {
+        Self {
+            rt: self.rt.clone(),
+            prov: self.prov.clone(),
+            engine: make_engine(self.workers),
+            wls: self.wls.clone(),
+            live: self.live.clone(),
+            passes: self.passes,
+            intents: self.intents,
+            accepted: self.accepted,
+            rejected: self.rejected,
+            nonce: self.nonce.wrapping_add(1_000_000),
+            log: Vec::new(),
+            workers: self.workers,
         }
     }
 
@@ -640,6 +663,18 @@ impl Hist {
         let mut touched: Vec<WorldlineId> = Vec::new();
         for r in &records {
             let w = r.head_key.worldline_id;
+            if let Ok(e) = self.prov.entry(
+                w,
+                WorldlineTick::from_raw(r.worldline_tick_after.as_u64().saturating_sub(1)),
+            ) {
+                for re in e.tick_receipt.as_ref().map_or(&[][..], |x| x.entries()) {
+                    if matches!(re.disposition, warp_core::TickReceiptDisposition::Applied) {
+                        self.accepted += 1;
+                    } else {
+                        self.rejected += 1;
+                    }
+                }
+            }
             let v = self.live.entry(w).or_default();
             let t = r.worldline_tick_after.as_u64() as usize;
             if v.len() != t {
@@ -667,15 +702,6 @@ impl Hist {
                 .state()
                 .clone();
             let obs = observe(&st, true);
-            if let Some((_, receipt, _)) = st.tick_history().last() {
-                for e in receipt.entries() {
-                    if matches!(e.disposition, warp_core::TickReceiptDisposition::Applied) {
-                        self.accepted += 1;
-                    } else {
-                        self.rejected += 1;
-                    }
-                }
-            }
             let v = self.live.get_mut(&w).ok_or_else(|| "live log missing".to_owned())?;
             let last = v.last_mut().ok_or_else(|| "live log empty".to_owned())?;
             last.obs = Some(obs);
